@@ -333,8 +333,10 @@ def pattern_builder(builder: OpsetPatternBuilder):
     global _pattern_builder
     prev_builder = _pattern_builder
     _pattern_builder = builder
-    yield
-    _pattern_builder = prev_builder
+    try:
+        yield
+    finally:
+        _pattern_builder = prev_builder
 
 
 class ValuePattern:
